@@ -103,14 +103,14 @@ def panicState (recovered : Val F) (sentinel : Nat) (l : List (Val F)) : State F
     ("isError", l.getD 1 .nil), ("stack", l.getD 2 .nil)], [], [], [], []⟩
 
 /-- **the regenerated `handlePanic`** (C07): nothing recovered — nothing happens; the recovered value is an error and is
-*the* sentinel `FailNow` panics with (the same value, not merely one that matches it) — nothing more happens (`FailNow`
-has marked the failure already); anything else — any other error, any non-error value — is logged and marks the
-handle failed -/
+*the* sentinel `FailNow` panics with (the same value, not merely one that matches it) — the handle is marked failed
+(`FailNow` may have been called on *another* handle, D25) and nothing is logged; anything else — any other error, any
+non-error value — is logged and marks the handle failed. So: the handle is marked for every recovered value. -/
 theorem t_handlePanic_refines (recovered : Option Nat) (isError : Bool) (sentinel : Nat) (l : List (Val F)) (fuel : Nat) :
     traceOf (runFn (panicExt isError) fuel t_handlePanic (panicState (optRef recovered) sentinel l)) =
       match recovered with
       | none => []
-      | some r => if isError = true ∧ r = sentinel then [] else ["arg0.logger.Error(…)", "arg0.Fail"] := by
+      | some r => if isError = true ∧ r = sentinel then ["arg0.Fail"] else ["arg0.logger.Error(…)", "arg0.Fail"] := by
   cases recovered with
   | none => simp [minigo, t_handlePanic, panicState]
   | some r =>
